@@ -55,7 +55,8 @@ func NewUntrustedMessageHandlers(ctx context.Context, trustedState *state.State,
 	memPool *state.MemPool, txChannel *TxChannel,
 	isRelevant IsRelevant, address string) map[string]MessageHandler {
 
-	blockHandler := NewBlockHandler(trustedState, nil)
+	// Blocks are only requested from the trusted node, so block messages from untrusted nodes are
+	// not handled. They must not be able to fill the trusted node's block requests.
 	txHandler := NewUntrustedTXHandler(untrustedState, txChannel)
 
 	return map[string]MessageHandler{
@@ -64,9 +65,8 @@ func NewUntrustedMessageHandlers(ctx context.Context, trustedState *state.State,
 		wire.CmdAddr:     NewAddressHandler(peers),
 		wire.CmdInv:      NewUntrustedInvHandler(untrustedState, tracker, memPool),
 		wire.CmdTx:       txHandler,
-		wire.CmdBlock:    blockHandler,
 		wire.CmdHeaders:  NewUntrustedHeadersHandler(untrustedState, peers, address, blockRepo),
 		wire.CmdReject:   NewRejectHandler(),
-		wire.CmdExtended: NewExtendedHandler(blockHandler, txHandler),
+		wire.CmdExtended: NewExtendedHandler(nil, txHandler),
 	}
 }
